@@ -166,3 +166,65 @@ pub fn run(sink: &mut Sink, rng: &mut Rng, thorough: bool) {
     }
   }
 }
+
+/// C19: `moc from vcells ... ascii <depth> -` (values given as `uniq value` lines) against the C20 model.
+/// NB: the command-line flag `-p/--no-split` sets the field `split` (its help text reads "Split recursively…"):
+/// the selection SPLITS the boundary cells when the flag is given and does not when it is absent; the flag is
+/// driven with the meaning the tool implements.
+pub fn cli_vcells(sink: &mut Sink, rng: &mut Rng, thorough: bool, dir: &std::path::Path) {
+  use crate::c19::moc as run_moc;
+  let n = if thorough { 60 } else { 8 };
+  for _ in 0..n {
+    let max_depth = 1 + rng.below(2) as u8;
+    let scale = 1u64 << (2 * max_depth as u32);
+    let mut cells: Vec<VC> = Vec::new();
+    let mut used: Vec<Range<u64>> = Vec::new();
+    for _ in 0..(1 + rng.below(4)) {
+      for _try in 0..10 {
+        let d = rng.below(max_depth as u64 + 1) as u8;
+        let idx = rng.below((12u64 << (2 * d as u32)).min(24));
+        let r = cell_range(d, idx);
+        if used.iter().all(|u| u.end <= r.start || r.end <= u.start) {
+          cells.push(VC { depth: d, idx, val: (1 + rng.below(3)) * scale * if rng.chance(1, 3) { 4 } else { 1 } });
+          used.push(r);
+          break;
+        }
+      }
+    }
+    let total: u64 = cells.iter().map(|c| c.val).sum();
+    let mut thr: Vec<u64> = vec![0, total];
+    let mut acc = 0;
+    for c in &cells { acc += c.val; thr.push(acc); thr.push(acc - c.val / 2); }
+    let (a, b) = (*rng.pick(&thr), *rng.pick(&thr));
+    let (from, to) = (a.min(b), a.max(b));
+    let txt = cells.iter().map(|c| format!("{}/{}/{}/{}", c.depth, c.idx, c.val, (c.val as u128 * (1u128 << (2 * c.depth as u32))))).collect::<Vec<_>>().join(",");
+    let input = cells.iter().map(|c| format!("{} {}", Hpx::<u64>::uniq_hpx(c.depth, c.idx), c.val)).collect::<Vec<_>>().join("\n") + "\n";
+    for mode in 0..16u32 {
+      let (asc, strict, no_split, rev) = (mode & 1 == 1, mode & 2 == 2, mode & 4 == 4, mode & 8 == 8);
+      let outp = dir.join("vcells.fits");
+      let _ = std::fs::remove_file(&outp);
+      let (fs_, ts_, ds) = (from.to_string(), to.to_string(), max_depth.to_string());
+      let mut args: Vec<&str> = vec!["from", "vcells", "-f", &fs_, "-t", &ts_];
+      if asc { args.push("-a"); }
+      if !strict { args.push("-s"); }
+      if !no_split { args.push("-p"); } // the flag turns splitting ON (see above)
+      if rev { args.push("-r"); }
+      args.extend(["ascii", &ds, "-", "fits", "-f"]);
+      args.push(outp.to_str().unwrap());
+      let o = run_moc(&args, Some(&input));
+      let b = |x: bool| if x { "1" } else { "0" };
+      let op = format!("vsel {} {} {} {} {} {} {} {}", max_depth, txt, from, to, b(asc), b(strict), b(no_split), b(rev));
+      let ans = if o.code == 0 {
+        match std::fs::read(&outp).map_err(|e| e.to_string()).and_then(|bytes| crate::c07::read_fits(&bytes)) {
+          Ok((q, _w, d, rs)) => {
+            if q != "hpx" || d != max_depth { sink.impl_failures.push(format!("cli-vcells: wrote a {} MOC of depth {} (expected hpx, {})", q, d, max_depth)); }
+            fmt_ranges(&rs)
+          }
+          Err(e) => format!("unreadable: {}", e),
+        }
+      } else if o.code == 101 { "fault".to_string() } else { format!("exit {} {}", o.code, o.err.lines().next().unwrap_or("")) };
+      sink.count("from:vcells");
+      sink.emit(&op, &ans, true);
+    }
+  }
+}
